@@ -257,15 +257,27 @@ def api_events(ctx, lc, tid, seq, seed):
     if rng.random() < 0.5:
         common.call(sp.get_kappa)
     import numpy as np
-    for which in ("shuffled", "shuffled-list", "shuffled-array", "shuffled-tuple", "shuffled-range", "permutant"):
+    own = set()          # one container owned by the caller: handed over several times and edited in place in between
+    for which in ("shuffled", "shuffled-list", "shuffled-own-set-1", "shuffled-own-set-2", "shuffled-own-set-3", "shuffled-array", "shuffled-tuple", "shuffled-range", "permutant"):
         N = len(seq)
         frozen = sorted(rng.sample(range(N), rng.randint(0, min(N, 4))))
         if which == "permutant":
             frozen = []
+        if which.startswith("shuffled-own-set"):
+            if which.endswith("3"):
+                keep = rng.choice(sorted(own)) if own else 0
+                own.clear()
+                own.add(keep)
+            else:
+                own.update(rng.sample(range(N), min(N, 2)))
+            frozen = sorted(own)
         with rngshim.installed(lc, rec):
             rec.take()
             if which == "shuffled":
                 out = common.call(sp.get_shuffled_sequence, set(frozen))
+                parent = sp.SeqObj
+            elif which.startswith("shuffled-own-set"):
+                out = common.call(sp.get_shuffled_sequence, own)
                 parent = sp.SeqObj
             elif which.startswith("shuffled-"):
                 if which == "shuffled-range":
